@@ -6,6 +6,7 @@
 From Coq Require Import ZArith NArith List Bool Arith.
 Import ListNotations.
 From HV Require Import lib.Harness model.Tracked model.BuilderErr spec.BuilderErrS proofs.BuilderErrP.
+From HV Require Import model.BuilderParts spec.BuilderPartsS proofs.BuilderPartsP.
 
 (* wires *)
 Theorem C13_wire_no_relation_raises : forall pt src tgt k, ParentFirst pt -> ~ SiblingAncestor pt src tgt ->
@@ -129,6 +130,22 @@ Theorem C13_plain_statements_are_caught_calls : forall T teqb (c : cond T) os,
   stmt_run T teqb c (map plain_stmt os) = cond_run T teqb c os.
 Proof. exact stmt_run_plain. Qed.
 
+(* leaving a container unfinished (the call that builds its outputs was never made: function - whatever outputs
+   were DECLARED -, Dfg, case, block, CFG without exit branch, conditional without a built case, loop, a partial
+   operation never wired) and serialising: IncompleteOp, wherever the part sits; a program that finishes
+   everything serialises *)
+Theorem C13_unfinished_part_serialise_raises : forall T ps,
+  LeftUnfinished ps <-> serialise_parts T ps = Err IncompleteOp.
+Proof. exact unfinished_part_serialise_raises. Qed.
+Theorem C13_unfinished_anywhere_raises : forall T pre p post, Unfinished p ->
+  serialise_parts T (pre ++ p :: post) = Err IncompleteOp.
+Proof. exact unfinished_anywhere_raises. Qed.
+Theorem C13_declared_outputs_do_not_finish : forall T pre declared post,
+  serialise_parts T (pre ++ PFunc declared false :: post) = Err IncompleteOp.
+Proof. exact declared_outputs_do_not_finish. Qed.
+Theorem C13_finished_parts_serialise : forall T ps, ~ LeftUnfinished ps -> serialise_parts T ps = Ok tt.
+Proof. exact finished_parts_serialise. Qed.
+
 Print Assumptions C13_wire_no_relation_raises.
 Print Assumptions C13_wire_outside_cfg_raises.
 Print Assumptions C13_non_dataflow_wire_raises.
@@ -161,3 +178,7 @@ Print Assumptions C13_consistent_block_accepted.
 Print Assumptions C13_exception_suppressed_iff_exit_true.
 Print Assumptions C13_plain_contexts_transparent.
 Print Assumptions C13_plain_statements_are_caught_calls.
+Print Assumptions C13_unfinished_part_serialise_raises.
+Print Assumptions C13_unfinished_anywhere_raises.
+Print Assumptions C13_declared_outputs_do_not_finish.
+Print Assumptions C13_finished_parts_serialise.
